@@ -180,6 +180,16 @@ def local_time_apis(ctx, report, RULE='C11.R3', only=None):
             if isinstance(n, ast.Compare) and isinstance(n.left, ast.Attribute) and n.left.attr == 'tzinfo' and \
                     any(isinstance(c, ast.Constant) and c.value is None for c in n.comparators):
                 zone_tested.add(ast.unparse(n.left.value))
+            # truthiness form of the same test: ``... if value.tzinfo else ...``, ``if not value.tzinfo:``, ``value.tzinfo and ...``
+            tests = []
+            if isinstance(n, (ast.If, ast.IfExp, ast.While, ast.Assert)):
+                tests.append(n.test)
+            elif isinstance(n, ast.BoolOp):
+                tests.extend(n.values[:-1])
+            for t in tests:
+                for m in ast.walk(t):
+                    if isinstance(m, ast.Attribute) and m.attr == 'tzinfo':
+                        zone_tested.add(ast.unparse(m.value))
         for n in ast.walk(f.node):
             d = None
             if isinstance(n, (ast.Attribute, ast.Name)):
